@@ -328,3 +328,65 @@ def prove_xor(replay, tag, tier):
         "planted_bugs_all_refuted": {"ok": planted["tried"] == planted["refuted"] and not planted["anchors_missing"], "detail": planted},
     }
     return dict(records=records, functions=[src.info("XORGame.quantum_value")], instances=len(reach), planted=planted, selfchecks=sc, axioms=AXIOM_TEXT)
+
+
+SEH_MUTS = [
+    ("constraints.append(partial_transpose(x_var[k], [sys + 2], dim_list) >> 0)", "constraints.append(partial_transpose(x_var[k], [sys + 1], dim_list) >> 0)", (2, 2, 2, 2, True)),
+    ("        constraints.append(np.kron(np.identity(dim_x), sym) @ x_var[k] @ np.kron(np.identity(dim_x), sym) == x_var[k])\n", "", (2, 2, 2, 2, True)),
+    ("obj_func.append(probs[k] * cvxpy.trace(item.conj().T @ meas[k]))", "obj_func.append(probs[0] * cvxpy.trace(item.conj().T @ meas[k]))", (2, 2, 3, 1, True)),
+    ("    constraints.append(sum(meas) == np.identity(dim_xy))\n", "", (2, 2, 2, 1, True)),
+    ("constraints.append(partial_transpose(x_var[k], [0], dim_list) >> 0)", "constraints.append(partial_transpose(x_var[k], [1], dim_list) >> 0)", (2, 2, 3, 1, True)),
+    ("sys_list = list(range(2, 2 + level - 1))", "sys_list = list(range(1, 1 + level - 1))", (2, 2, 2, 2, True)),
+]
+
+
+def prove_seh(replay, tag, tier):
+    """symmetric_extension_hierarchy builds the stated program; density-matrix input, dim given as a list; (n, d_A, d_B, level) enumerated"""
+    from contracts.sdp_c import SdpContract, seh_specs
+    from vt import extract
+    from vt.pyvc.progvc import AXIOM_TEXT, ProgEngine
+
+    class Contract(SdpContract):
+        validation_calls = ("__is_states_valid", "__is_probs_valid")
+
+    src = extract.Source("toqito/state_opt/symmetric_extension_hierarchy.py")
+    insts = [(2, 2, 2, 1, True), (2, 2, 2, 2, True), (3, 2, 3, 1, True), (2, 3, 2, 2, False), (3, 2, 2, 2, False), (1, 2, 2, 2, False)]
+    if tier == "thorough":
+        insts += [(4, 2, 2, 1, True), (2, 2, 3, 2, True), (2, 3, 3, 1, True), (1, 3, 3, 2, False), (2, 2, 2, 3, True)]
+
+    def run(inst, override=None):
+        rel, fn, params, req, spec, text = seh_specs(*inst)["seh"]
+        s = override if override is not None else src
+        e = ProgEngine(s.function(fn), Contract(params, req, spec, text), fn, "%d states on %d x %d, level %d, probs %s" % (inst[0], inst[1], inst[2], inst[3], "given" if inst[4] else "omitted"), timeout_ms=4000 if override is None else 1200)
+        return e.run()
+
+    records = []
+    for inst in insts:
+        records += run(inst)
+    for i, x in enumerate(records):
+        x["_id"] = "%s.%d" % (tag, i)
+        x["clean"] = False
+        if x["status"] != "discharged":
+            x["replay"] = list(replay)[:60]
+    planted = {"tried": 0, "refuted": 0, "survivors": [], "anchors_missing": [], "detail": []}
+    for old, new, inst in (SEH_MUTS if tier == "thorough" else SEH_MUTS[:2]):
+        try:
+            m = src.mutated(old, new)
+        except KeyError:
+            planted["anchors_missing"].append("symmetric_extension_hierarchy: %s" % old[:40])
+            continue
+        bad = [x for x in run(inst, override=m) if x["status"] != "discharged"]
+        planted["tried"] += 1
+        if bad:
+            planted["refuted"] += 1
+            planted["detail"].append({"mutant": "symmetric_extension_hierarchy: %s -> %s" % (old[:50].strip(), new[:50].strip()), "not_discharged": len(bad), "first": "%s [%s]" % (bad[0]["text"][:90], bad[0]["status"])})
+        else:
+            planted["survivors"].append("symmetric_extension_hierarchy: %s" % old[:50])
+    claims = sum(1 for x in records if x.get("claim"))
+    reach = [x for x in records if x["kind"] == "reachability"]
+    sc = {
+        "nonzero_claim_obligations": {"ok": claims > 0, "detail": {"symmetric_extension_hierarchy": claims}},
+        "preconditions_satisfiable": {"ok": bool(reach) and all(x["status"] == "discharged" for x in reach), "detail": {"instances": len(reach)}},
+        "planted_bugs_all_refuted": {"ok": planted["tried"] == planted["refuted"] and not planted["anchors_missing"], "detail": planted},
+    }
+    return dict(records=records, functions=[src.info("symmetric_extension_hierarchy")], instances=len(reach), planted=planted, selfchecks=sc, axioms=AXIOM_TEXT)
